@@ -72,6 +72,20 @@ class SortedNames:
         calls = [mir.callee_path(t) for _, t in mir.calls(b)]
         return len(calls) == 1 and calls[0] in ELEMENTWISE
 
+    def closure_equality(self, term):
+        """Is `<path>::{closure#N}{..}` a one-argument closure returning `element == captured value`?"""
+        from .interp import Interp, Policy, Sym, show
+        m = re.match(r"^(.*::\{closure#\d+\})\{.*\}$", term.strip())
+        b = self.fb.bodies.get(m.group(1)) if m else None
+        if b is None or b["arg_count"] != 2:
+            return False
+        ps = [p for p in Interp(self.fb, Policy()).run(b, [Sym("env"), Sym("elem")]) if p.status != "unreachable"]
+        if len(ps) != 1 or ps[0].status != "return":
+            return False
+        s = show(ps[0].result)
+        return bool(re.match(r"^std::cmp::PartialEq::eq\(elem, \.cap:\w+\(env\)\)$", s) or re.match(r"^std::cmp::PartialEq::eq\(\.cap:\w+\(env\), elem\)$", s)
+                    or re.match(r"^binop:Eq\(elem, \.cap:\w+\(env\)\)$", s))
+
     # -- classification ---------------------------------------------------------------
     def classify(self, body, term, depth=0):
         key = (body["path"], term)
@@ -224,8 +238,16 @@ class SortedNames:
             selfterm = re.sub(r"^std::ops::DerefMut::deref_mut\((.*)\)$", r"\1", o.op_term(t["args"][0]))
             guarded = False
             for (s, lab, term, span) in dom.dominating_guards(b, bi, o):
-                if lab is False and (re.search(r"::contains\(", term) or re.search(r"Iterator::any\(", term)) and selfterm.split("param:")[-1].split(".cap:")[-1] in term:
-                    guarded = True
+                if lab is not False or selfterm.split("param:")[-1].split(".cap:")[-1] not in term:
+                    continue
+                if re.search(r"slice::<impl \[T\]>::contains\(", term) or re.search(r"SmallVec::<A>::contains\(|Vec::<T, A>::contains\(", term):
+                    guarded = True      # std membership by equality
+                elif re.search(r"Iterator::any\(", term):
+                    # the predicate must be an EQUALITY test of the element (substring / prefix tests lose names)
+                    pt = dom.parse_term(term)
+                    cl = dom.unparse_term(pt[1][1]) if isinstance(pt, tuple) and len(pt[1]) == 2 else ""
+                    if self.closure_equality(cl):
+                        guarded = True
             if not guarded:
                 return Result(False, "SORTED", "a push into %s is not guarded by a negative membership test (duplicates possible)" % vname)
         return Result(True, "SORTED", "sorted in natural order after %d guarded push site(s) in %s" % (len(others), body["path"]))
